@@ -9,6 +9,9 @@ import (
 // oracle stays switched on in every run.
 func (Engine) Generate(r *core.Rng, property, tier string) *core.Plan {
 	p := &core.Plan{Knobs: map[string]int64{}, Meta: map[string]string{}}
+	if property == "C13" {
+		return genStore(r, p, tier)
+	}
 	p.SetKnob("actors", int64(r.Range(3, 6)))
 	p.SetKnob("maturity", int64(r.Range(0, 3)))
 	g := &gen{r: r, p: p, prop: property}
